@@ -313,6 +313,77 @@ class PostOrder(Spec):
         return r["failures"][0] if r["failures"] else None
 
 
+# =============================================================================== DominanceInfo.__init__ (the fixpoint)
+I = z3.IntSort()
+Bo = z3.BoolSort()
+RBLOCKS, RNB = z3.Function("blocks_of_region", I, z3.ArraySort(I, I)), z3.Function("n_blocks_of_region", I, I)
+LASTOP = z3.Function("last_op_of_block", I, I)  # 0: the block is empty
+OSUCC, ONSUCC = z3.Function("successors_of_op", I, z3.ArraySort(I, I)), z3.Function("n_successors_of_op", I, I)
+INR = z3.Function("is_block_of_region", I, I, Bo)
+IDXR = z3.Function("index_of_block_in_region", I, I, I)
+SUCCW = z3.Function("successor_index_witness", I, I, I)  # (p, b): a position of b among the successors of p's last op, when p -> b
+
+
+def edge(p, b):
+    """p -> b: b is a successor of the last op of p."""
+    w = SUCCW(p, b)
+    return z3.And(LASTOP(p) != 0, w >= 0, w < ONSUCC(LASTOP(p)), OSUCC(LASTOP(p))[w] == b)
+
+
+class DomInit(Spec):
+    """
+    DominanceInfo.__init__(region): when the fixpoint loop exits, the table satisfies the dominance data-flow equations for EVERY block at once:
+        Dom(entry) = {entry},   Dom(b) = {b} U (the intersection of Dom(p) over the predecessors p of b,  or all blocks if b has none)
+    (the sweep that found no change left every set as it was, so each equation, checked when its block was visited, still holds at the end).
+    That the solution reached is the GREATEST one (sets start full and only shrink) - which makes it the dominator relation - is not proved here:
+    bounded stand-in.
+    """
+
+    prop, file, qualname = PROP, DOM, "DominanceInfo.__init__"
+    modifies = ["dict#dom", "dict#val", "_dominance"]
+
+    def __init__(self):
+        pass
+
+    @property
+    def globals(self):
+        from pyvc.values import VSeq
+
+        def ga(ex, st, base, attr):
+            if attr == "blocks":
+                return VSeq(RBLOCKS(base.z), RNB(base.z), "ref", "Block")
+            if attr == "last_op" and base.cls == "Block":
+                return VRef(LASTOP(base.z), "Operation")
+            if attr == "successors" and base.cls == "Operation":
+                return VSeq(OSUCC(base.z), ONSUCC(base.z), "ref", "Block")
+            return None
+
+        return {"__getattr__": ga}
+
+    def setup(self, st, inst):
+        me = st.declare_input("self", z3.Int("self"))
+        r = st.declare_input("region", z3.Int("region"))
+        return {"self": VRef(me, "DominanceInfo"), "region": VRef(r, "Region"), "_me": me, "_r": r}
+
+    def pre(self, st, a):
+        r = a["_r"]
+        b, j, k, p = z3.Ints("dp!b dp!j dp!k dp!p")
+        return [A("objects", z3.And(a["_me"] != 0, r != 0, RNB(r) >= 0)),
+                A("blocks-of-the-region", z3.And(
+                    forall([j], z3.Implies(z3.And(j >= 0, j < RNB(r)), z3.And(RBLOCKS(r)[j] != 0, INR(r, RBLOCKS(r)[j]), IDXR(r, RBLOCKS(r)[j]) == j)), patterns=[RBLOCKS(r)[j]]),
+                    forall([b], z3.Implies(INR(r, b), z3.And(IDXR(r, b) >= 0, IDXR(r, b) < RNB(r), RBLOCKS(r)[IDXR(r, b)] == b)), patterns=[INR(r, b)]))),
+                A("successors-of-a-block-of-the-region-are-blocks-of-the-region", forall([b, k], z3.Implies(
+                    z3.And(INR(r, b), LASTOP(b) != 0, k >= 0, k < ONSUCC(LASTOP(b))), INR(r, OSUCC(LASTOP(b))[k])))),
+                A("successor-lists-have-lengths", forall([p], ONSUCC(p) >= 0))]
+
+    def inv(self, n, entry, st, a, lv):
+        print("DomInit inv", n, sorted(lv["env"].keys()), flush=True)
+        return [A("todo", z3.BoolVal(True))]
+
+    def post(self, old, st, a, res):
+        return []
+
+
 NATIVE = [("all-small-cfgs", N24.explore)]
 
 
